@@ -219,9 +219,10 @@ PROPS = {
         "title": "bounded sinks",
         "bounds": "for each C01 row: all values x symbolic capacity 0..=len+1 into a &mut [u8] sub-slice with canaries; Ok iff it fits, write error otherwise, prefix left; "
                   "raw write_all sequences (3 calls, symbolic lengths) on each cursor kind; identical bytes in slice / array cursor sinks",
-        "outside": "Vec<u8> and std::io sinks in the quick tier (alloc/std groups are thorough-tier), sequences > 3 calls",
+        "outside": "write_all sequences > 3 calls; std::io writers other than the one-byte-per-call scripted one",
         "assumptions": [],
-        "groups": [core({"quick": ["::q::c13", "c13::c13_"], "thorough": ["::c13", "c13::c13_"]})],
+        "groups": [core({"quick": ["::q::c13", "c13::c13_"], "thorough": ["::c13", "c13::c13_"]}),
+                   core(["c13::with_std::", "c13::with_alloc::"], features=("half", "std"))],
     },
     "C05": {
         "title": "integer decoding never wraps or truncates",
